@@ -17,6 +17,7 @@ pub mod c06;
 pub mod c07;
 pub mod c08;
 pub mod c09;
+pub mod c09net;
 pub mod c10;
 pub mod tunnelreq;
 pub mod c11;
